@@ -100,7 +100,10 @@ pub fn select_best_quality_idx(conns: &[crate::connection::SrtlaConnection]) -> 
     let mut best_quality = f64::NEG_INFINITY;
 
     for (i, conn) in conns.iter().enumerate() {
-        if !conn.connected || !conn.is_schedulable() {
+        // A stall-gated link is a suspected black hole with a healthier
+        // alternative available (see `apply_stall_gate`): the schedulers
+        // hard-skip it, so must-land traffic must not be steered onto it either.
+        if !conn.connected || !conn.is_schedulable() || conn.is_stall_gated() {
             continue;
         }
         let q = conn.quality_cache.multiplier;
